@@ -12,52 +12,31 @@ namespace SSJ
 /-! ### `withFlag` -/
 
 theorem withFlag_result (t : TokObj) (want : Bool) (body : Except PyErr Frame) :
-    (withFlag t want body).result = body := by
-  cases body <;> rfl
+    (withFlag t want body).result = body := rfl
 
-theorem withFlag_flag_of_ok (t : TokObj) (want : Bool) (body : Except PyErr Frame) (fr : Frame)
-    (h : (withFlag t want body).result = .ok fr) : (withFlag t want body).flagAfter = t.returnSet := by
-  cases body with
-  | ok f => rfl
-  | error e => simp [withFlag] at h
+/-- `try … finally`: whatever the body does, the flag is restored -/
+theorem withFlag_flag (t : TokObj) (want : Bool) (body : Except PyErr Frame) :
+    (withFlag t want body).flagAfter = t.returnSet := rfl
 
-/-! ### C12: a call that returns normally leaves the flag as it found it -/
+/-! ### C12: every call — normal return, rejection, or exception in the body — leaves the flag as it found it -/
 
-/-- a call that returns normally leaves the flag as it found it -/
-theorem setSimJoinPy_flag (m : Measure) (a : JoinArgs) (t : TokObj) (toks : TokFn) (cpu : Int) (fr : Frame)
-    (h : (setSimJoinPy m a t toks cpu).result = .ok fr) :
+/-- jaccard / cosine / dice join: the flag is restored on every path -/
+theorem setSimJoinPy_flag (m : Measure) (a : JoinArgs) (t : TokObj) (toks : TokFn) (cpu : Int) :
     (setSimJoinPy m a t toks cpu).flagAfter = t.returnSet := by
-  unfold setSimJoinPy at h ⊢
-  split
-  · rfl
-  · rename_i l r hv
-    rw [hv] at h
-    exact withFlag_flag_of_ok _ _ _ _ h
+  unfold setSimJoinPy
+  split <;> rfl
 
-theorem overlapCoefficientJoinPy_flag (a : JoinArgs) (t : TokObj) (toks : TokFn) (cpu : Int) (fr : Frame)
-    (h : (overlapCoefficientJoinPy a t toks cpu).result = .ok fr) :
+theorem overlapCoefficientJoinPy_flag (a : JoinArgs) (t : TokObj) (toks : TokFn) (cpu : Int) :
     (overlapCoefficientJoinPy a t toks cpu).flagAfter = t.returnSet := by
-  unfold overlapCoefficientJoinPy at h ⊢
-  split
-  · rfl
-  · rename_i l r hv
-    rw [hv] at h
-    exact withFlag_flag_of_ok _ _ _ _ h
+  unfold overlapCoefficientJoinPy
+  split <;> rfl
 
-theorem editDistanceJoinPy_flag (a : JoinArgs) (t : TokObj) (toks : TokFn) (cpu : Int) (fr : Frame)
-    (h : (editDistanceJoinPy a t toks cpu).result = .ok fr) :
+theorem editDistanceJoinPy_flag (a : JoinArgs) (t : TokObj) (toks : TokFn) (cpu : Int) :
     (editDistanceJoinPy a t toks cpu).flagAfter = t.returnSet := by
-  unfold editDistanceJoinPy at h ⊢
+  unfold editDistanceJoinPy
   split
   · rfl
-  · rename_i l r hv
-    rw [hv] at h
-    split
-    · rename_i tau htau
-      simp only [htau] at h
-      exact withFlag_flag_of_ok _ _ _ _ h
-    · rfl
-    · rfl
+  · split <;> rfl
 
 /-- `overlap_join_py` (repaired, F4) restores the flag on every path -/
 theorem overlapJoinPy_flag (a : JoinArgs) (t : TokObj) (toks : TokFn) (cpu : Int) :
@@ -92,30 +71,65 @@ theorem unitMeasure_ne_ed {mname : String} (h : unitMeasure mname) : mname ≠ "
 theorem validate_threshold_unit (mname : String) (q : Rat) (hm : unitMeasure mname) :
     validate_threshold (.float q) (.str mname) = .err .assertion ↔ q ≤ 0 ∨ 1 < q := by
   rcases hm with rfl | rfl | rfl | rfl <;>
-    simp [validate_threshold, PyV.eqb, PyV.leb, PyV.gtb, PyV.ltb, PyV.numVal?] <;> tauto
+    simp [validate_threshold, PyV.eqb, PyV.leb, PyV.gtb, PyV.ltb, PyV.numVal?] <;>
+    (rw [← Rat.not_le (a := q) (b := 0), ← Rat.not_le (a := q) (b := 1)]; tauto)
 
 theorem validate_threshold_unit_int (mname : String) (i : Int) (hm : unitMeasure mname) :
     validate_threshold (.int i) (.str mname) = .err .assertion ↔ i ≤ 0 ∨ 1 < i := by
   rcases hm with rfl | rfl | rfl | rfl <;>
-    simp [validate_threshold, PyV.eqb, PyV.leb, PyV.gtb, PyV.ltb, PyV.numVal?] <;> norm_cast <;> omega
+    simp [validate_threshold, PyV.eqb, PyV.leb, PyV.gtb, PyV.ltb, PyV.numVal?] <;>
+    (rw [Rat.not_le]; norm_cast; omega)
 
 theorem validate_threshold_ed (i : Int) :
     validate_threshold (.int i) (.str "EDIT_DISTANCE") = .err .assertion ↔ i < 0 := by
-  simp [validate_threshold, PyV.eqb, PyV.ltb, PyV.numVal?]
-  norm_cast
+  simp [validate_threshold, PyV.eqb, PyV.geb, PyV.leb, PyV.numVal?]
+  rw [Rat.not_le]; norm_cast
 
 theorem validate_threshold_ed_float (q : Rat) :
     validate_threshold (.float q) (.str "EDIT_DISTANCE") = .err .assertion ↔ q < 0 := by
-  simp [validate_threshold, PyV.eqb, PyV.ltb, PyV.numVal?]
+  simp [validate_threshold, PyV.eqb, PyV.geb, PyV.leb, PyV.numVal?]
+  exact Rat.not_le
 
 theorem validate_threshold_overlap (i : Int) :
     validate_threshold (.int i) (.str "OVERLAP") = .err .assertion ↔ i ≤ 0 := by
-  simp [validate_threshold, PyV.eqb, PyV.leb, PyV.numVal?]
-  norm_cast
+  simp [validate_threshold, PyV.eqb, PyV.gtb, PyV.ltb, PyV.numVal?]
+  rw [Rat.not_lt]; norm_cast
 
 theorem validate_threshold_overlap_float (q : Rat) :
     validate_threshold (.float q) (.str "OVERLAP") = .err .assertion ↔ q ≤ 0 := by
-  simp [validate_threshold, PyV.eqb, PyV.leb, PyV.numVal?]
+  simp [validate_threshold, PyV.eqb, PyV.gtb, PyV.ltb, PyV.numVal?]
+  exact Rat.not_lt
+
+/-! the acceptance sets for an ARBITRARY threshold value (the repaired `if not threshold >= 0` etc.: anything
+    that does not compare as required — in particular every non-number — is rejected) -/
+
+theorem validate_threshold_ed_iff (v : PyV) :
+    validate_threshold v (.str "EDIT_DISTANCE") ≠ .err .assertion ↔ PyV.geb v (.int 0) = true := by
+  cases h : PyV.geb v (.int 0) <;> simp [validate_threshold, PyV.eqb, h]
+
+theorem validate_threshold_overlap_iff (v : PyV) :
+    validate_threshold v (.str "OVERLAP") ≠ .err .assertion ↔ PyV.gtb v (.int 0) = true := by
+  cases h : PyV.gtb v (.int 0) <;> simp [validate_threshold, PyV.eqb, h]
+
+theorem validate_threshold_unit_iff (mname : String) (v : PyV) (hm : unitMeasure mname) :
+    validate_threshold v (.str mname) ≠ .err .assertion ↔
+      PyV.gtb v (.int 0) = true ∧ PyV.leb v (.int 1) = true := by
+  rcases hm with rfl | rfl | rfl | rfl <;>
+    cases h : PyV.gtb v (.int 0) <;> cases h' : PyV.leb v (.int 1) <;> simp [validate_threshold, PyV.eqb, h, h']
+
+/-- a threshold that is not a number (a string, `None`, …) is rejected, whatever the measure -/
+theorem validate_threshold_non_numeric (v : PyV) (mname : String) (hv : PyV.numVal? v = Option.none) :
+    validate_threshold v (.str mname) = .err .assertion := by
+  cases v <;> simp [PyV.numVal?] at hv <;>
+    simp [validate_threshold, PyV.geb, PyV.gtb, PyV.leb, PyV.ltb, PyV.numVal?]
+
+end Gen
+
+/-- `x > 0` excludes `x <= 0` (also for `inf`; both are false for a non-number) -/
+theorem PyV.leb_zero_of_gtb_zero {v : PyV} (h : PyV.gtb v (.int 0) = true) : PyV.leb v (.int 0) = false := by
+  cases v <;> simp_all [PyV.gtb, PyV.ltb, PyV.leb, PyV.numVal?] <;> exact Rat.not_le.mpr h
+
+namespace Gen
 
 theorem validate_comp_op_for_sim_measure_sim (op mname : String) (hm : mname ≠ "EDIT_DISTANCE") :
     validate_comp_op_for_sim_measure (.str op) (.str mname) = .err .assertion ↔ op ∉ [">=", ">", "="] := by
@@ -557,7 +571,7 @@ theorem editDistanceJoinPy_reject (a : JoinArgs) (t : TokObj) (toks : TokFn) (cp
   exact ⟨rfl, rfl⟩
 
 /-- `overlap_join_py`: the OverlapFilter constructor rejects with TypeError (not a tokenizer) or
-    AssertionError (threshold `≤ 0`, unsupported operator) -/
+    AssertionError (threshold not `> 0`, unsupported operator) -/
 theorem mkOverlapFilter_error_kind (size : PyV) (op : String) (am : Bool) (t : TokObj) (e : PyErr)
     (h : mkOverlapFilter size op am t = .error e) : e = .typeErr ∨ e = .assertion := by
   unfold mkOverlapFilter validateTokenizer at h
@@ -594,88 +608,65 @@ theorem Rejected.kind {c : Call} {flag : Bool} {e : PyErr} (h : Rejected c flag 
     e = .typeErr ∨ e = .assertion :=
   validateJoin_error_kind _ _ _ _ h.2
 
-theorem runCall_flag_of_ok (cpu : Int) (c : Call) (flag : Bool) (fr : Frame)
-    (h : (runCall cpu c flag).result = .ok fr) : (runCall cpu c flag).flagAfter = flag := by
-  unfold runCall at h ⊢
-  simp only at h ⊢
-  split_ifs at h ⊢
-  · exact setSimJoinPy_flag _ _ _ _ _ _ h
-  · exact setSimJoinPy_flag _ _ _ _ _ _ h
-  · exact setSimJoinPy_flag _ _ _ _ _ _ h
-  · exact overlapCoefficientJoinPy_flag _ _ _ _ _ h
-  · rfl
-  · exact editDistanceJoinPy_flag _ _ _ _ _ h
-
-theorem runCall_overlap_flag (cpu : Int) (c : Call) (flag : Bool) (h : c.which = "overlap") :
-    (runCall cpu c flag).flagAfter = flag := by
+/-- every join call of a session leaves its tokenizer's flag as it found it — whether it returns normally,
+    is rejected, or raises inside its body -/
+theorem runCall_flag (cpu : Int) (c : Call) (flag : Bool) : (runCall cpu c flag).flagAfter = flag := by
   unfold runCall
-  simp [h, overlapJoinPy]
+  simp only
+  split_ifs
+  · exact setSimJoinPy_flag _ _ _ _ _
+  · exact setSimJoinPy_flag _ _ _ _ _
+  · exact setSimJoinPy_flag _ _ _ _ _
+  · exact overlapCoefficientJoinPy_flag _ _ _ _
+  · rfl
+  · exact editDistanceJoinPy_flag _ _ _ _
 
 theorem runCall_rejected (cpu : Int) (c : Call) (flag : Bool) (e : PyErr) (h : Rejected c flag e) :
     (runCall cpu c flag).result = .error e ∧ (runCall cpu c flag).flagAfter = flag := by
+  refine ⟨?_, runCall_flag cpu c flag⟩
   obtain ⟨hne, hv⟩ := h
   unfold Call.mname at hv
   unfold runCall
   simp only
   split_ifs at hv ⊢
-  · exact setSimJoinPy_reject .jaccard _ _ _ _ _ hv
-  · exact setSimJoinPy_reject .cosine _ _ _ _ _ hv
-  · exact setSimJoinPy_reject .dice _ _ _ _ _ hv
-  · exact overlapCoefficientJoinPy_reject _ _ _ _ _ hv
+  · exact (setSimJoinPy_reject .jaccard _ _ _ _ _ hv).1
+  · exact (setSimJoinPy_reject .cosine _ _ _ _ _ hv).1
+  · exact (setSimJoinPy_reject .dice _ _ _ _ _ hv).1
+  · exact (overlapCoefficientJoinPy_reject _ _ _ _ _ hv).1
   · rename_i h5
     exact absurd (by simpa using h5) hne
-  · exact editDistanceJoinPy_reject _ _ _ _ _ hv
+  · exact (editDistanceJoinPy_reject _ _ _ _ _ hv).1
 
-/-- a call "behaves" at flag `b` when it leaves the flag as it found it -/
-theorem run_of_flag_preserved (cpu : Int) (flags : List Bool) (calls : List Session.Call)
-    (hfl : ∀ c ∈ calls, (Session.runCall cpu c (flags.getD c.tokId false)).flagAfter = flags.getD c.tokId false) :
+/-- writing back the value just read is a no-op (also for an unknown tokenizer id) -/
+theorem set_getD_self (flags : List Bool) (i : Nat) : flags.set i (flags.getD i false) = flags := by
+  apply List.ext_getElem?
+  intro j
+  by_cases hi : i = j
+  · subst hi
+    by_cases hlt : i < flags.length
+    · simp [List.getD_eq_getElem?_getD, hlt]
+    · have hle : flags.length ≤ i := Nat.le_of_not_lt hlt
+      simp [hle]
+  · simp [List.getElem?_set_ne hi]
+
+/-- one step of a session never changes the state -/
+theorem step_eq (cpu : Int) (flags : List Bool) (c : Session.Call) :
+    Session.step cpu flags c = (flags, Session.runCall cpu c (flags.getD c.tokId false)) := by
+  simp only [Session.step, runCall_flag, set_getD_self]
+
+/-- HISTORY INDEPENDENCE, unconditionally: in ANY history (calls may return, be rejected, or raise in their
+    body; tokenizer ids may be unknown) each call's outcome equals its outcome in isolation (same tokenizer
+    flags as at the start), and the flags end as they began. -/
+theorem run_independent (cpu : Int) (flags : List Bool) (calls : List Session.Call) :
     Session.run cpu flags calls = (flags, calls.map (fun c => Session.runCall cpu c (flags.getD c.tokId false))) := by
   induction calls with
   | nil => rfl
-  | cons c cs ih =>
-    have hc := hfl c (List.mem_cons_self)
-    have hset : flags.set c.tokId (Session.runCall cpu c (flags.getD c.tokId false)).flagAfter = flags := by
-      rw [hc]
-      apply List.ext_getElem?
-      intro i
-      by_cases hi : c.tokId = i
-      · subst hi
-        by_cases hlt : c.tokId < flags.length
-        · simp [List.getD_eq_getElem?_getD, hlt]
-        · have hle : flags.length ≤ c.tokId := Nat.le_of_not_lt hlt
-          simp [hle]
-      · simp [List.getElem?_set_ne hi]
-    simp only [Session.run, Session.step, hset, List.map_cons]
-    rw [ih (fun c' hc' => hfl c' (List.mem_cons_of_mem _ hc'))]
+  | cons c cs ih => simp only [Session.run, step_eq, ih, List.map_cons]
 
-/-- HISTORY INDEPENDENCE: if every call of a history returns normally, each call's outcome equals
-    its outcome in isolation (same tokenizer flags as at the start), and the flags end as they began. -/
-theorem run_independent (cpu : Int) (flags : List Bool) (calls : List Session.Call)
-    (hid : ∀ c ∈ calls, c.tokId < flags.length)
-    (hok : ∀ c ∈ calls, ∃ fr, (Session.runCall cpu c (flags.getD c.tokId false)).result = .ok fr) :
-    Session.run cpu flags calls = (flags, calls.map (fun c => Session.runCall cpu c (flags.getD c.tokId false))) := by
-  have _ := hid
-  apply run_of_flag_preserved
-  intro c hc
-  obtain ⟨fr, hfr⟩ := hok c hc
-  exact runCall_flag_of_ok _ _ _ _ hfr
-
-/-- variant: each call either returns normally, or is an `overlap_join` (whose `try … finally`
-    restores the flag on every path), or is rejected by its validation block — in all three cases
-    it cannot influence any later call.  (`hid` is not needed: writing the flag of an unknown
-    tokenizer id is a no-op in the model.) -/
-theorem run_independent_or_rejected (cpu : Int) (flags : List Bool) (calls : List Session.Call)
-    (hok : ∀ c ∈ calls,
-      (∃ fr, (Session.runCall cpu c (flags.getD c.tokId false)).result = .ok fr) ∨
-      c.which = "overlap" ∨
-      (∃ e, Rejected c (flags.getD c.tokId false) e)) :
-    Session.run cpu flags calls = (flags, calls.map (fun c => Session.runCall cpu c (flags.getD c.tokId false))) := by
-  apply run_of_flag_preserved
-  intro c hc
-  rcases hok c hc with ⟨fr, hfr⟩ | hov | ⟨e, he⟩
-  · exact runCall_flag_of_ok _ _ _ _ hfr
-  · exact runCall_overlap_flag _ _ _ hov
-  · exact (runCall_rejected _ _ _ _ he).2
+/-- the state is an invariant of `run` -/
+theorem run_flags (cpu : Int) (flags : List Bool) (calls : List Session.Call) :
+    (Session.run cpu flags calls).1 = flags := by
+  rw [run_independent]
 
 end Session
 
